@@ -57,6 +57,17 @@ func Calls(fn *ssa.Function, calleeGlob string) []ssa.CallInstruction {
 			}
 		}
 	}
+	if len(newHelpers) > 0 && fn.Parent() == nil {
+		for _, h := range helpersOf(fn) {
+			for _, b := range h.Blocks {
+				for _, in := range b.Instrs {
+					if c, ok := in.(ssa.CallInstruction); ok && Match(calleeGlob, calleeName(c.Common())) {
+						out = append(out, c)
+					}
+				}
+			}
+		}
+	}
 	return out
 }
 
@@ -127,6 +138,9 @@ type PathQuery struct {
 	// AvoidEdge, if set, removes CFG edges from the search; it receives the
 	// normalised atoms that the edge establishes (see Fact).
 	AvoidEdge func(atoms []string) bool
+	// internal: sub-queries inside a transparent helper
+	noEscape     bool
+	insideHelper bool
 }
 
 // Entry is the point before the first instruction of fn.
@@ -162,6 +176,49 @@ func FindPath(q PathQuery) (found bool, hit ssa.Instruction, trace []int) {
 			if q.Avoid != nil && q.Avoid(in) {
 				blocked = true
 				break
+			}
+			if len(newHelpers) > 0 {
+				// a return inside the transparent helper the search started in: continue after its call sites
+				if _, isRet := in.(*ssa.Return); isRet && !q.noEscape {
+					if hi := newHelpers[in.Parent()]; hi != nil {
+						for _, site := range hi.sites {
+							si := site.(ssa.Instruction)
+							work = append(work, st{si.Block(), InstrIndex(si) + 1})
+							if _, ok := parent[si.Block()]; !ok && si.Block() != s.b {
+								parent[si.Block()] = s.b
+							}
+						}
+						blocked = true
+						break
+					}
+				}
+				// a call of a transparent helper: walk its body as if inlined
+				if h := helperCallee(in); h != nil && !q.Target(in) {
+					if found, hit, _ := FindPath(PathQuery{From: Entry(h), Target: q.Target, Avoid: q.Avoid, noEscape: true, insideHelper: true}); found {
+						var tr []int
+						for b := s.b; b != nil; b = parent[b] {
+							tr = append([]int{b.Index}, tr...)
+							if b == q.From.B {
+								break
+							}
+						}
+						return true, hit, tr
+					}
+					if q.Avoid != nil {
+						if through, _, _ := FindPath(PathQuery{From: Entry(h), Target: IsReturn, Avoid: q.Avoid, noEscape: true}); !through {
+							blocked = true // every way through the helper executes an avoided instruction (or dies)
+							break
+						}
+					}
+					continue
+				}
+			}
+			if q.insideHelper {
+				// returns of the helper are not returns of the logical function
+				if _, isRet := in.(*ssa.Return); isRet {
+					blocked = true
+					break
+				}
 			}
 			if q.Target(in) {
 				var tr []int
@@ -245,7 +302,27 @@ func (p *Program) Stores(fv *types.Var) []Store {
 
 func (p *Program) buildStoreIdx() {
 	p.storeIdx = map[*types.Var][]Store{}
-	add := func(s Store) { p.storeIdx[s.Field] = append(p.storeIdx[s.Field], s) }
+	add := func(s Store) {
+		if s.Fn.Parent() == nil && newHelpers[s.Fn] != nil {
+			h := s.Fn
+			s.Fn = LogicalOwner(h) // a transparent helper writes on behalf of its owner
+			if sites := sitesNeedingContext(h); sites != nil {
+				// one entry per call site, operands seen from that site
+				for _, site := range sites {
+					c := s
+					if c.Base != nil {
+						c.Base = &CtxValue{c.Base, site}
+					}
+					if c.Val != nil {
+						c.Val = &CtxValue{c.Val, site}
+					}
+					p.storeIdx[c.Field] = append(p.storeIdx[c.Field], c)
+				}
+				return
+			}
+		}
+		p.storeIdx[s.Field] = append(p.storeIdx[s.Field], s)
+	}
 	for _, fn := range p.Funcs {
 		for _, b := range fn.Blocks {
 			for _, in := range b.Instrs {
@@ -366,7 +443,7 @@ func EnclosingTop(fn *ssa.Function) *ssa.Function {
 	for fn.Parent() != nil {
 		fn = fn.Parent()
 	}
-	return fn
+	return LogicalOwner(fn)
 }
 
 // Instrs iterates all instructions of fn (not anonymous functions).
@@ -374,6 +451,16 @@ func Instrs(fn *ssa.Function, f func(ssa.Instruction)) {
 	for _, b := range fn.Blocks {
 		for _, in := range b.Instrs {
 			f(in)
+		}
+	}
+	// the instructions of transparent helpers belong to their owner (see helpers.go)
+	if len(newHelpers) > 0 && fn.Parent() == nil && newHelpers[fn] == nil {
+		for _, h := range helpersOf(fn) {
+			for _, b := range h.Blocks {
+				for _, in := range b.Instrs {
+					f(in)
+				}
+			}
 		}
 	}
 }
